@@ -9,6 +9,8 @@
             == sum_u64(values_sat@),                                                                                 //[C08.onchain.non-beneficial-exact]
         r.is_ok() && c08_strict() && !dev_disabled(self.vp_policy()) ==>
             feerate_sat(r->Ok_0 as nat, weight_lower_bound as nat) <= self.vp_policy().max_feerate_per_kw,                //[C08.onchain.fee-bound]
+        // whatever the filter: the reported value never exceeds what the inputs carry
+        r.is_ok() ==> r->Ok_0 as nat <= sum_u64(values_sat@),                                                        //[C08.onchain.non-beneficial-at-most-inputs]
         // funding any channel requires all inputs to be segwit
         r.is_ok() && c08_strict() && any_some(channels@) ==> all_true_flags(segwit_flags@),                          //[C08.onchain.funding-non-malleable]
         r.is_ok() && c08_strict() ==> tx.version == Version::TWO && tx_base_size(*tx) <= MAX_ONCHAIN_TX_SIZE,
